@@ -159,6 +159,8 @@ func (s *Subst) Poly(p *Poly) *Poly {
 				b = EmbTerm(p.F, s.Term(x.v.T)).Pow(x.e)
 			case FPV:
 				b = EmbPred(p.F, s.patom(x.v.P))
+			case FExp:
+				b = ExpVar(p.F, s.Poly(x.v.Q), s.Term(x.v.T)).Pow(x.e)
 			default:
 				if s.Var != nil && x.v == s.Var {
 					b = s.VarVal.Pow(x.e)
